@@ -140,6 +140,8 @@ def c14(prog, rep):
 def c13(prog, rep):
     from .lockset import rule_c13
     rule_c13(prog, rep)
+    from .lock import rule_recursive
+    rule_recursive(prog, rep, rid='B-recursive')
     rep.explanation = (
         'Guarded-by (lockset) discipline: for every container operation C13 names (insert/put, get, remove/pop, '
         'clear, toarray/tostring of tree table, hash table, list table, list/queue/stack, vector) every access to '
@@ -172,6 +174,8 @@ def c11(prog, rep):
     CH.rule_s3(prog, rep, C.C11_UNITS)
     IX.rule_idx(prog, rep)
     O.rule_m5(prog, rep, C.C11_UNITS)
+    from . import hasharr as HA
+    HA.rule_i9(prog, rep)
     rep.explanation = (
         'Structural memory-safety clauses over the 11 anchored units, all CFG paths: M1 every memcpy/strcpy/strncpy whose '
         'operands can share a base object (origins over reaching definitions) must be provably disjoint (affine distance = '
@@ -198,6 +202,7 @@ def c15(prog, rep):
     O.rule_m2(prog, rep, om, units, sm, fault=True, rid='M2f')
     from . import tree as T
     T.rule_a4(prog, rep, T.restructurers(prog)[0])
+    T.rule_fixup_bypass(prog, rep)
     rep.explanation = (
         'Fault-path discipline in the nine container units (and qinternal.h macros as expanded there), all CFG paths with '
         'path-sensitive value tracking: A1 every allocation result (malloc/calloc/realloc/strdup/qmemdup/qstrdupf and repo '
@@ -222,6 +227,7 @@ def c12(prog, rep):
     C.rule_m4(prog, rep, E.ACCESSOR_UNITS + ['src/utilities/qstring.c'], rid='R2-len')
     E.rule_r2_move(prog, rep, E.ACCESSOR_UNITS)
     E.rule_r2_fill(prog, rep, E.ACCESSOR_UNITS)
+    E.rule_r2_bin(prog, rep, E.ACCESSOR_UNITS)
     from . import hasharr as HA
     HA.rule_i7(prog, rep)
     rep.explanation = (
@@ -298,6 +304,7 @@ def c01(prog, rep):
     E.rule_r2_move(prog, rep, [T.UNIT])
     E.rule_r2_fill(prog, rep, [T.UNIT])
     T.rule_t6(prog, rep)
+    T.rule_fixup_bypass(prog, rep, rid='T9')
     rep.explanation = (
         'Structural clauses of "exact sorted map" visible in code shape, over all CFG paths of qtreetbl.c: T1 node keys are only '
         'compared through tbl->compare (one orientation for all 7 call sites), copied, freed or moved - never inspected directly '
@@ -337,6 +344,10 @@ def c05(prog, rep):
     from . import escape as E
     E.rule_r2(prog, rep, [CH.UNIT])
     E.rule_r2_fill(prog, rep, [CH.UNIT])
+    CH.rule_s2_strcmp(prog, rep)
+    CH.rule_s4(prog, rep)
+    CH.rule_s5_cursor(prog, rep, [(CH.UNIT, 'qhashtbl_getnext', 1)])
+    CH.rule_s6_clear(prog, rep)
     rep.explanation = (
         'Sibling-agreement and protocol rules on qhashtbl.c: S1 put/get/remove compute the chain slot from the same closed '
         'expression (hash function, length argument, modulus field, obtained by expanding local definitions) and the walk resumes '
